@@ -35,7 +35,7 @@ def run(tier, seed):
     # quick: per class one of {method aa, method bb, class variable aa, self.aa in __init__, self.bb in another method,
     # property bb, nothing}; thorough: all 11 options and the second member of the root class
     QUICK = '(m%d == 0 or m%d == 1 or m%d == 2 or m%d == 4 or m%d == 7 or m%d == 9 or m%d == 10)'
-    for hh in range(7):
+    for hh in range(len(h.HIER)):
         n = len(h.HIER[hh])
         for via in range(3):
             for form in range(4):
@@ -63,7 +63,7 @@ def run(tier, seed):
     rep.functions = ['assistant.assist (attribute branch)', 'assistant.location', 'EvalCtx.evaluate/declarations',
                      'ClassObject._attrs/bases/_cls_attrs', 'InstanceValue._attrs/_assigned', 'SourceScope.assigns',
                      'FuncScope.get_argument/resolve', 'ImportedName.resolve', 'SourceModule', 'resolve_star_imports']
-    rep.bounds = ['7 hierarchy shapes (1..4 classes, single and multiple inheritance without repeated ancestors, a builtin base), one member per '
+    rep.bounds = ['9 hierarchy shapes (1..4 classes, source and builtin bases mixed in either order, single and multiple inheritance without repeated ancestors, a builtin base), one member per '
                   'class (+ a second one in the root class) of kind method / class variable / self-assignment in __init__ / self-assignment in '
                   'another method / property or none, names from a 2-name alphabet (overrides at every level), root class in the same module or '
                   'reached by from-import / module attribute / star import, queried through an instance, the class, or self in a subclass method'
